@@ -7,6 +7,7 @@ Branch == (1 :> "b" @@ 2 :> "c")
 JoinType == "AND"
 Threshold == 0
 Scenario == "A"
+SibOrder == <<"b", "c">>
 InitSt == [s \in Up \cup {"d"} |-> [status |-> IF s = "d" THEN "NOT_STARTED" ELSE "SUCCEEDED", ver |-> IF s = "d" THEN 0 ELSE 6,
                                    fired |-> FALSE, cb |-> {}, tver |-> IF s = "d" THEN 0 ELSE 6]]
 ====
